@@ -252,6 +252,34 @@ def gen_shared_under_do_all(rng):
     return doc
 
 
+def gen_props_times_anyof(rng):
+    """an object schema that declares a property, conjoined (allOf, or a reference with sibling keywords) with a
+    disjunction whose alternatives constrain the same property differently and are told apart by another required name:
+    multiplying the conjunction out must keep the alternatives' constraints apart"""
+    p = rng.choice(J.NAMES)
+    others = [n for n in J.NAMES if n != p]
+    rng.shuffle(others)
+    k = rng.choice([2, 2, 3])
+    if rng.random() < 0.7:
+        base = {"type": rng.choice(["number", "integer"])}
+        cs = rng.sample([{"minimum": 5}, {"maximum": 3}, {"minimum": 20, "maximum": 30}, {"multipleOf": 4}], k)
+    else:
+        base = {"type": "string"}
+        cs = rng.sample([{"minLength": 4}, {"maxLength": 2}, {"minLength": 1, "maxLength": 3}], k)
+    head = {"type": "object", "properties": {p: base}, "required": [p]}
+    alts = [{"properties": {p: c}, "required": [others[i % len(others)]]} for i, c in enumerate(cs)]
+    m = rng.random()
+    if m < 0.5:
+        doc = {"allOf": [head, {"anyOf": alts}]}
+    elif m < 0.75:
+        doc = {"allOf": [{"anyOf": alts}, head]}
+    else:
+        doc = {"$ref": "#/$defs/H", "anyOf": alts, "$defs": {"H": head}}
+    if rng.random() < 0.3 and "$defs" not in doc:
+        doc = {"type": "object", "properties": {"w": doc}, "required": ["w"]}
+    return doc
+
+
 def vary(rng, doc):
     """a document near [doc]: some leaf-like sub-schemas replaced by fresh ones, some keywords dropped"""
     d = copy.deepcopy(doc)
@@ -693,6 +721,18 @@ def run(pid, tier):
         d = gen_ref_twins(rng) if m < 0.06 else gen_same_twice(rng) if m < 0.12 else gen_shared_under_do_all(rng) if m < 0.17 else gen_doc(rng, allow_anyof=(pid == "C01"))
         if isinstance(d, bool) or J.metaschema_ok(d):
             docs.append(d)
+    # documents that are in the dialect by the way they are built: the side conditions of the quantifier (one lower and one
+    # upper bound per conjunction, non-empty range) are otherwise evaluated on the implementation's normal form, and a
+    # normalize() that mixes up the alternatives would move exactly the documents it gets wrong out of scope
+    by_construction = set()
+    if pid == "C01":
+        # a stream of its own, so that the documents above stay what they were
+        rng2 = random.Random(ck.seed * 911 + 5)
+        for _ in range(12 if tier == "quick" else 160):
+            d = gen_props_times_anyof(rng2)
+            if J.metaschema_ok(d):
+                docs.append(d)
+                by_construction.add(id(d))
     hist = {"in_scope": 0, "with_ref": 0, "with_allOf": 0, "with_array": 0, "raises_library_exception": 0, "labelled_valid": 0, "labelled_invalid": 0,
             "corpus_documents": len(json_corpus(pid))}
     sys.setrecursionlimit(2500)
@@ -754,7 +794,7 @@ def run(pid, tier):
     for d in docs:
         txt = json.dumps(d)
         ck.count(txt, len(txt) > 25)
-        if not in_scope(pid, d):
+        if id(d) not in by_construction and not in_scope(pid, d):
             continue
         hist["in_scope"] += 1
         hist["with_ref"] += '"$ref"' in txt
@@ -763,7 +803,7 @@ def run(pid, tier):
         for item in ORACLES[pid](d):
             sig, what = item[0], item[1]
             small = d
-            if len(ck.violations) < 3 and isinstance(d, dict):
+            if len(ck.violations) < 3 and isinstance(d, dict) and id(d) not in by_construction:
                 small = c06.shrink_doc(d, lambda c: in_scope(pid, c) and any(x[0] == sig for x in ORACLES[pid](c)))
                 got = [x for x in ORACLES[pid](small) if x[0] == sig]
                 if got:
